@@ -78,6 +78,9 @@ fn build_space(base: Vec<BaseFrame>, classes: &[&str], pay: usize, subset: Optio
                 continue;
             }
         }
+        if classes.contains(&"T") {
+            fams.push(Family { base: bi, dev: Dev::Trunc, count: b.frame.len() as u64 });
+        }
         if classes.contains(&"TL") {
             fams.push(Family { base: bi, dev: Dev::Trunc, count: b.frame.len() as u64 });
             for fd in deviate::header_fields(&b.frame).into_iter().chain(deviate::app_fields(&b.name, &b.frame)) {
@@ -210,6 +213,10 @@ pub fn run(rep: &mut Report, thorough: bool) {
         !b.name.ends_with("-v6") || b.name.starts_with("echo") || b.name.contains("stun-magic-attrs") || b.name.contains("tcp-http-get")
     };
     let sp_tl = if thorough { build_space(base.clone(), &["TL"], 0, None) } else { build_space(base.clone(), &["TL"], 0, Some(&quick_subset)) };
+    // quick tier: the field-value class runs under the levels off and trace of every (lists, logger)
+    // combination (the arguments evaluated at a level are a subset of those evaluated at trace); the
+    // four levels in between get every frame and every truncation
+    let sp_t = build_space(base.clone(), &["T"], 0, Some(&quick_subset));
     {
         let t0 = std::time::Instant::now();
         let jobs: Vec<(Cfg, Profile)> = lat.iter().flat_map(|c| profiles.iter().map(move |p| (c.clone(), *p))).filter(|(_, p)| thorough || *p == Profile::Dev).collect();
@@ -226,7 +233,8 @@ pub fn run(rep: &mut Report, thorough: bool) {
                     let cfg = c.clone().with_profile(*p);
                     let mut r = Report::new("C01", "x");
                     r.quiet = true;
-                    run_space(&mut r, &cfg, &sp_tl, "lattice-T-L", "", Some(1));
+                    let full = thorough || matches!(cfg.level, Level::Off | Level::Trace);
+                    run_space(&mut r, &cfg, if full { &sp_tl } else { &sp_t }, "lattice-T-L", "", Some(1));
                     sinks.lock().unwrap().push(r.sink);
                 });
             }
@@ -234,7 +242,9 @@ pub fn run(rep: &mut Report, thorough: bool) {
         for s in sinks.into_inner().unwrap() {
             rep.sink.merge(s);
         }
-        rep.stage("lattice-T-L", &format!("base corpus + every truncation + every length/selector field value, under {} (configuration, profile) pairs", jobs.len()), sp_tl.total() * jobs.len() as u64, t0);
+        let nfull = jobs.iter().filter(|(c, _)| thorough || matches!(c.level, Level::Off | Level::Trace)).count() as u64;
+        let total = sp_tl.total() * nfull + sp_t.total() * (jobs.len() as u64 - nfull);
+        rep.stage("lattice-T-L", &format!("base corpus + every truncation under {} (configuration, profile) pairs; every length/selector field value under {} of them (quick tier: log levels off and trace of every list / logger combination)", jobs.len(), nfull), total, t0);
     }
     // 2. B1 + A under the extreme configurations
     let ext = extreme_cfgs();
